@@ -302,6 +302,8 @@ def main():
         for i, c in enumerate(cases):
             if W != 2 and i % 2 and not c.name.startswith('alloc/'):
                 continue
+            if W == 8 and c.name.startswith('usesite/'):
+                continue        # the use-site matrix runs at 16/24/32 bit
             add_tasks(tasks, c.with_(word=W), full=not quick and c.name.startswith('alloc/'), wall=500)
     if quick:
         for i, c in enumerate(F.alloc_templates()):
